@@ -38,6 +38,7 @@ impl Scenario for ConnScenario {
 			slow_steps: 1,
 			connect_points: true,
 			ping_ms: if self.name.starts_with("ws-inactive") { Some(2) } else { None },
+			per_conn_http_mw: self.name.contains("http-middleware"),
 			..Default::default()
 		})
 	}
@@ -251,6 +252,10 @@ pub fn scenarios(thorough: bool) -> Vec<ConnScenario> {
 	add("ws-with-subscription-reset", 1, vec![ws(vec![PeerAct::Subscribe(0), PeerAct::Drop]), ws(vec![PeerAct::Call, PeerAct::CloseFrame]), http(vec![HttpAct::Call])], false, mask_harness_only);
 	add("ws-protocol-violation", 1, vec![Conn::WsRaw(vec![RawWsAct::Call, RawWsAct::ReservedOpcode]), ws(vec![PeerAct::Call, PeerAct::CloseFrame]), http(vec![HttpAct::Call])], false, mask_harness_only);
 	add("ws-protocol-violation-idle", 1, vec![Conn::WsRaw(vec![RawWsAct::ReservedOpcode]), Conn::WsRaw(vec![RawWsAct::Call])], false, mask_harness_only);
+	// per-connection HTTP middleware set on a clone of the shared builder: the limit still spans all connections
+	add("http-middleware-per-connection:ws", 1, vec![ws(vec![PeerAct::SlowCall]), ws(vec![PeerAct::Call]), http(vec![HttpAct::Call])], false, mask_harness_only);
+	add("http-middleware-per-connection:http", 1, vec![http(vec![HttpAct::SlowCall, HttpAct::Call]), http(vec![HttpAct::Call]), ws(vec![PeerAct::Call, PeerAct::CloseFrame])], false, mask_harness_only);
+	add("http-middleware-per-connection:limit0", 0, vec![ws(vec![PeerAct::Call]), http(vec![HttpAct::Call])], false, mask_harness_only);
 	// server-side close for ping/pong inactivity (the raw peer never answers pings), idle and with a call in flight
 	add("ws-inactive-idle", 1, vec![Conn::WsRaw(vec![RawWsAct::Idle]), http(vec![HttpAct::Call]), ws(vec![PeerAct::Call, PeerAct::CloseFrame])], false, mask_harness_only);
 	add("ws-inactive-call-in-flight", 1, vec![Conn::WsRaw(vec![RawWsAct::SlowCall]), http(vec![HttpAct::Call]), http(vec![HttpAct::Call])], false, mask_harness_only);
